@@ -106,7 +106,7 @@ def deleteMapEntry (left : Node) (index : Obj) : M Obj := do
     match ← envGet e id with
     | none => pure (.bool false)
     | some obj =>
-      -- the map may belong to an outer scope: look through the reference (repo fix 7a539ca), as `evalIndexAssigment` does
+      -- the map may belong to an outer scope: look through the reference (repo fix 9607a64), as `evalIndexAssigment` does
       let obj ← valueOf obj
       match obj with
       | .map big kvs =>
@@ -151,6 +151,8 @@ def bindParams (nenv : Nat) : List (String × Obj) → M (Option Obj)
   | [] => pure none
   | (p, a) :: rest => do
     let pval ← valueOf a
+    -- binding an all-caps parameter depends on whether an outer constant of that name exists, now or later
+    if isConstant p then triggerNoCache nenv
     let oerr ← createOrSet nenv p pval true
     if oerr.isError then pure (some oerr) else bindParams nenv rest
 
@@ -166,7 +168,7 @@ def splitArgs (f : FuncVal) (args : List Obj) : List String × List Obj × List 
   else (f.params, args, [])
 
 /-- `NewFunctionEnvironment`'s test "the callee is the function this frame is running" (a recursive call): same
-printed text AND same defining environment, i.e. the same closure (repo fix 22094ba: the text alone made two
+printed text AND same defining environment, i.e. the same closure (repo fix 15db210: the text alone made two
 closures of one factory "the same function", so the callee looked its captures up in the caller's frame) -/
 def sameFunction (cf : Frame) (f : FuncVal) : Bool :=
   cf.cacheKey == f.key && (match cf.function with
@@ -634,7 +636,8 @@ def applyFunction : Nat → Obj → List Obj → M Obj
       | .ok nenv =>
         let curState ← curEnv
         modify fun st => { st with cur := nenv, outs := [] :: st.outs }
-        let before := (← getFrame nenv).getMiss
+        -- the frame is new: the misses made while binding the parameters count too
+        let before := 0
         let res ← eval fuel f.body
         let fr ← getFrame nenv
         let after := fr.getMiss
